@@ -107,3 +107,24 @@ package base
 //@   requires entry != nil
 //@   modifies *
 //@   assert never_while_persisted: at os.RemoveAll#0 :: !persist.Value
+
+// ---- LRU file map (property C10) ------------------------------------------------------------------
+//
+// latAsked is the last access time the map asked an entry to persist. An entry is "in sync" when
+// its in-memory lastAccessTime equals latAsked: the access time on disk is then the one the map
+// compares against. A touch keeps an in-sync entry in sync and leaves the persisted access time
+// less than timeResolution behind the clock - the bound the idle-time cleanup relies on.
+//@ lockinv lruFileMap.Mutex self fm guards contents elements
+//@   invariant elements_live: forall k string :: (k in fm.elements) ==> fm.elements[k] != nil && allocated(fm.elements[k])
+
+//@ func lruFileMap.syncGetAndTouch
+//@   requires fm != nil && fm.clk != nil && fm.queue != nil && fm.elements != nil && fm.timeResolution >= 0
+//@   modifies *
+//@   ensures stays_in_sync: result1 && old(result0.lastAccessTime) == old(result0.fe.latAsked) ==> result0.lastAccessTime == result0.fe.latAsked
+//@   ensures persisted_time_is_recent: result1 && old(result0.lastAccessTime) == old(result0.fe.latAsked) ==> fm.clk.now - result0.fe.latAsked < fm.timeResolution || fm.clk.now == result0.fe.latAsked
+
+// Eviction removes an entry's files only through FileEntry.Delete (which refuses persisted files).
+//@ func lruFileMap.syncRemoveOldestIfNeeded
+//@   requires fm != nil && fm.queue != nil && fm.elements != nil
+//@   modifies *
+//@   assert evicts_current_entry: at FileEntry.Delete#0 :: ne == e
